@@ -99,6 +99,27 @@ def run_total(spec):
                     o.check(dc <= 2e-2, "component_deposit_" + comp, "asm %d: %.6e vs %.6e"
                             % (a.id, pd[comp], exp[str(a.id + 1)][comp]))
         o.metric("deposited_rel_err", worst)
+        # the heat must actually arrive: with constant properties the enthalpy rise of all flowing coolant
+        # (assemblies + gap) equals the assigned power (classes that are not conservative by construction -
+        # stagnant bypass, six-node lag, conv_approx - are left to C02)
+        from .C02 import asm_kind
+        kinds = [asm_kind(a) for a in asms]
+        clean = not any(("stagnant" in k_ or "6node" in k_) for k_ in kinds) and \
+            not any(getattr(g, "_conv_approx", False) for a in asms for g in a.region) and \
+            r.core.model in (None, "flow")
+        o.classes["enthalpy_clause"] = clean
+        if clean and exp_tot > 0:
+            T0 = float(sp["core"]["coolant_inlet_temp"])
+            H = 0.0
+            for a in asms:
+                reg = a.active_region
+                cpa = float(reg.coolant.heat_capacity)
+                H += sum(cpa * float(np.dot(m, t - T0)) for _, m, t in observe.streams(reg))
+            if r.core.model == "flow":
+                H += float(r.core.gap_coolant.heat_capacity) * float(np.dot(r.core._sc_mfr, r.core.coolant_gap_temp - T0))
+            res = abs(H - exp_tot) / scale
+            o.metric("enthalpy_vs_assigned_rel", res)
+            o.check(res <= 10 * tol, "coolant_enthalpy_vs_assigned", "enthalpy rise %.10e vs assigned %.10e" % (H, exp_tot))
         o.check(abs(tot_del - exp_tot) <= tol * scale + 1e-12, "core_deposited_total",
                 "%.10e vs %.10e" % (tot_del, exp_tot))
         o.nontrivial = order >= 1 and (ncell >= 2 or not al) and exp_tot > 0
